@@ -486,8 +486,24 @@ def stepLine (a : CAcc) (n : Nat) (line : String) : IO CAcc := do
       let st := s.stalled.filter (· != key)
       return { a with sim := { s with stalled := if v == "inf" then st else st ++ [key] } }
     else return { a with sim := s }
-  | "settled" :: _ =>
+  | "settled" :: settledRest =>
     let s := { s with opsSinceSettle := 0 }
+    -- c10 liveness: a connect that has not produced its OpenPort is waiting for a local port number or for a
+    -- connect credit; at a quiescent point with both available (and nothing else pending that could hold a port
+    -- number: accepts allocate before they wait) it must have gone out
+    let pendingIds : List String := match kvGet settledRest "pending" with
+      | some "-" => []
+      | some t => t.splitOn ","
+      | none => []
+    let s := if s.teardown || !s.stalled.isEmpty || s.sawPortData || !pendingIds.all (·.startsWith "c") then s else
+      s.awaitingOpen.foldl (fun s (x, k) =>
+        let sd := s.side x
+        let peer := s.side (if x == "A" then "B" else "A")
+        if pendingIds.contains k && sd.run.isNone && peer.run.isNone && sd.maxPorts > 0 &&
+           sd.ep.allocated.length < sd.maxPorts && sd.unanswered < sd.ep.cfg.remoteCq &&
+           !sd.ep.remoteListenerDropped && !sd.ep.goodbyeSent && !sd.ep.goodbyeReceived && !sd.listenerFinishRx then
+          s.fail "c10" n s!"connect {k} of side {x} is still waiting although a port number ({sd.ep.allocated.length} of {sd.maxPorts} in use) and a connect credit are available at a quiescent point"
+        else s) s
     let s := { s with a := { s.a with outAtSettle := s.a.ep.outstanding, acceptNoPort := false },
                       b := { s.b with outAtSettle := s.b.ep.outstanding, acceptNoPort := false } }
     let s := { s with accepts := s.accepts.map (fun (k, (x, fl)) =>
